@@ -255,6 +255,13 @@ func (cc *Chaincode) batchExecute(
 	return shim.Success(data)
 }
 
+// validErrorText returns the text of a transaction's error as valid UTF-8. The text goes into a
+// protobuf string field of the batch response; a method that prints raw bytes into its error (an
+// address, a hash) must fail alone, not make the response of the whole batch unencodable.
+func validErrorText(err error) string {
+	return strings.ToValidUTF8(err.Error(), "\uFFFD")
+}
+
 type TxResponse struct {
 	Method     string                    `json:"method"`
 	Error      string                    `json:"error,omitempty"`
@@ -296,7 +303,7 @@ func (cc *Chaincode) batchedTxExecute(
 		if delErr := stub.DelState(key); delErr != nil {
 			log.Errorf("failed deleting key %s from state on txId: %s", key, delErr.Error())
 		}
-		ee := proto.ResponseError{Error: "function and args loading error: " + err.Error()}
+		ee := proto.ResponseError{Error: "function and args loading error: " + validErrorText(err)}
 		span.SetStatus(codes.Error, err.Error())
 		return &proto.TxResponse{Id: binaryTxID, Method: pending.GetMethod(), Error: &ee},
 			&proto.BatchTxEvent{Id: binaryTxID, Method: pending.GetMethod(), Error: &ee}
@@ -306,7 +313,7 @@ func (cc *Chaincode) batchedTxExecute(
 				log.Errorf("failed deleting key %s from state: %s", key, delErr.Error())
 			}
 		}
-		ee := proto.ResponseError{Error: "function and args loading error: " + err.Error()}
+		ee := proto.ResponseError{Error: "function and args loading error: " + validErrorText(err)}
 		span.SetStatus(codes.Error, err.Error())
 		return &proto.TxResponse{Id: binaryTxID, Error: &ee},
 			&proto.BatchTxEvent{Id: binaryTxID, Error: &ee}
@@ -345,7 +352,7 @@ func (cc *Chaincode) batchedTxExecute(
 	response, err := cc.InvokeContractMethod(traceCtx, txStub, pending.GetSender(), method, pending.GetArgs())
 	if err != nil {
 		_ = stub.DelState(key)
-		ee := proto.ResponseError{Error: err.Error()}
+		ee := proto.ResponseError{Error: validErrorText(err)}
 		span.SetStatus(codes.Error, "call method returned error")
 
 		return &proto.TxResponse{Id: binaryTxID, Method: pending.GetMethod(), Error: &ee},
